@@ -94,6 +94,9 @@ def roundtrips() -> Any:
         "plan": st.lists(st.sampled_from(["retry", "requeue"]), max_size=3),
         # the observing pre_execute middleware hands on the message it got, or a (shallow / deep) copy of it - a message-replacing middleware
         "mw_returns": st.sampled_from(["same", "same", "copy", "deepcopy"]),
+        # the retry middleware's own control label given by the user in a type of its choice (the middleware reads it with int()):
+        # it is a label like any other and keeps value and type on every delivery
+        "max_retries": st.sampled_from([None, None, None, {"s": "9"}, {"f": struct.pack(">d", 9.0).hex()}, {"i": "9"}]),
         # a second call of the same task through the same broker / middleware instances, with labels of its own:
         # whatever one call carried must not show up in the other
         "second": st.one_of(st.none(), st.fixed_dictionaries({"extra": LABELS, "plan": st.lists(st.sampled_from(["retry", "requeue"]), max_size=2)})),
@@ -117,6 +120,8 @@ class QB(AsyncBroker):
 def run_roundtrip(c: Dict[str, Any]) -> Outcome:
     out = Outcome()
     decl = {k: dec(v) for k, v in c["decl"].items()}
+    if c.get("max_retries"):
+        decl["max_retries"] = dec(c["max_retries"])
     calls = [{"extra": {k: dec(v) for k, v in c["extra"].items()}, "plan": list(c["plan"])}]
     if c.get("second"):
         calls.append({"extra": {k: dec(v) for k, v in c["second"]["extra"].items()}, "plan": list(c["second"]["plan"])})
